@@ -504,12 +504,15 @@ REREG_TARGETS = {
     "labels": ("register_labels", ["accuracy_labels_table", "accuracy_labels_table", "prediction_errors_labels_table", "estimate_m_pairwise_labels"]),
     "user_table": ("register_user_table", ["blocking_analysis_user_table"]),
     "concat_with_tf": ("register_concat_with_tf", ["predict", "cluster_registered"]),
-    "input": ("relink", ["predict", "cluster_registered", "accuracy_labels_table", "compute_tf"]),
+    "input": ("relink", ["predict", "cluster_registered", "accuracy_labels_table", "compute_tf"] + H.REREG_TRAINING_OPS),
     "tf_lookup": ("register_tf_lookup", ["predict", "compute_tf"]),
 }
 REREG_NOISE = ["predict", "predict_thr", "estimate_u", "em", "compute_tf", "cluster", "deterministic_link", "compare_two", "find_matches", "estimate_prior",
                "invalidate", "delete_splink_tables"]
 REREG_FORCE_PREDICT_CHECK = ("relink", "register_concat_with_tf", "register_tf_lookup")
+
+
+TRAINS_THE_MODEL = ["estimate_m_pairwise_labels"] + H.REREG_TRAINING_OPS
 
 
 def gen_rereg_case(rng):
@@ -532,6 +535,19 @@ def gen_rereg_case(rng):
             return [st]
         return H.gen_history(rng, world, length=1, ops=[op])  # [] when the operation does not apply (no TF column)
 
+    if rng.random() < 0.15:
+        # nothing but training calls around the replacement of the input tables: no scoring call caches a result that names the input
+        # table, so only results derived through intermediates (already dropped from the cache) connect the cache to the replaced table
+        mine = []
+        for c in rng.sample(H.REREG_TRAINING_OPS, rng.randint(1, 2)):
+            mine += make(c)
+        hist = list(mine)
+        for _ in range(rng.choice([1, 1, 2])):
+            hist += make("relink") + [json.loads(json.dumps(x)) for x in mine]
+        for st in hist:
+            st["check_predict"] = False
+        hist[-1]["check_predict"] = True
+        return {"world": world, "history": hist, "tag": "rereg"}
     targets = [t for t in REREG_TARGETS if t != "tf_lookup" or tfcols]
     weights = {"predict": 4, "labels": 4, "input": 3, "concat_with_tf": 2, "user_table": 2, "tf_lookup": 1}
     chosen = []
@@ -647,7 +663,8 @@ def run_rereg(case: dict) -> dict:
         op = step["op"]
         rec = {"op": op}
         observed = op in H.REREG_OBSERVED_OPS
-        model_before = json.loads(json.dumps(linker.misc.save_model_to_json(out_path=None))) if op == "estimate_m_pairwise_labels" else None
+        # a training call is repeated on the fresh linker from the model as it was BEFORE the call
+        model_before = json.loads(json.dumps(linker.misc.save_model_to_json(out_path=None))) if op in TRAINS_THE_MODEL else None
         try:
             mine = H.apply_op(linker, world, step, state)
         except Exception as e:  # noqa: BLE001
@@ -712,7 +729,9 @@ def run_rereg(case: dict) -> dict:
 REREG_KIND_OF = {"cluster_registered": ("predict", "input", "concat_with_tf"), "best_links_registered": ("predict", "input", "concat_with_tf"), "graph_metrics_registered": ("predict",),
                  "accuracy_labels_table": ("labels", "input", "concat_with_tf", "tf_lookup"), "prediction_errors_labels_table": ("labels", "input", "concat_with_tf", "tf_lookup"),
                  "estimate_m_pairwise_labels": ("labels", "input", "concat_with_tf"), "blocking_analysis_user_table": ("user_table",),
-                 "predict": ("input", "concat_with_tf", "tf_lookup"), "compute_tf": ("input", "concat_with_tf", "tf_lookup")}
+                 "predict": ("input", "concat_with_tf", "tf_lookup"), "compute_tf": ("input", "concat_with_tf", "tf_lookup"),
+                 "estimate_u_observed": ("input", "concat_with_tf"), "em_observed": ("input", "concat_with_tf"), "estimate_prior_observed": ("input", "concat_with_tf"),
+                 "estimate_m_label_observed": ("input", "concat_with_tf")}
 REREG_REG_KIND = {"register_predict": "predict", "register_labels": "labels", "register_user_table": "user_table", "register_concat_with_tf": "concat_with_tf",
                   "relink": "input", "register_tf_lookup": "tf_lookup"}
 
